@@ -51,8 +51,21 @@ def extract(g, X):
               "crypt.rs:key_derivation_owner_password_rc4", owner_kd)
 
     def owner_rounds():
-        m = re.search(r"let\s+\w+\s*=\s*if\s+\w+\s*==\s*(\d+)\s*\{\s*(\d+)u8\s*\}\s*else\s*\{\s*(\d+)u8\s*\}", fp)
-        return m.group(1), m.group(2), m.group(3)
+        # `let rounds = if level == 2 { 1 } else { 20 };` (either polarity, or a match): evaluated for level = 2 .. 6
+        lvar = re.search(r"let\s+(\w+)\s*=\s*\w+\.r\s*;", fp).group(1)
+        init = None
+        for m in re.finditer(r"let\s+(\w+)\s*(?::\s*\w+)?\s*=\s*(?=if\b|match\b)", fp):
+            cand = X.let_expr(fp[m.start():], m.group(1)) or ""
+            head = cand.split("{")[0]
+            if re.search(r"(?<![\w.])" + lvar + r"(?!\w)", head) and re.fullmatch(r"(?:if|match)\s+[^{]*\{\s*[^{}]*\}\s*(?:else\s*\{[^{}]*\})?", cand.strip()) and re.search(X.BYTE, cand):
+                init = cand
+                break
+        t = {k: o.value for k, o in X.tabulate(init, lvar, src, scopes=[fp], domain=range(2, 7)).items()}
+        special = [k for k in t if list(t.values()).count(t[k]) == 1]
+        if len(special) != 1 or len(set(t.values())) != 2 or not all(isinstance(v, int) for v in t.values()):
+            raise ValueError("owner rounds: %r" % (t,))
+        other = [v for k, v in t.items() if k != special[0]][0]
+        return str(special[0]), str(t[special[0]]), str(other)
     g.attempt([("crypt_owner_rev2", "N"), ("crypt_owner_rounds2", "N"), ("crypt_owner_rounds", "N")], "crypt.rs:from_password owner rounds", owner_rounds)
 
     def dispatch():
